@@ -122,16 +122,29 @@ def parse_desc(desc):
     return 9, 0, 0, 0
 
 
-def run_real(name, cfg, tc, decider, clock_times=None, max_tests=100000, watchdog=45.0):
+HUNG = set()   # strategies that already spun without starting a test in this process: reported, not waited for again
+
+
+def run_real(name, cfg, tc, decider, clock_times=None, max_tests=100000, watchdog=15.0):
     """decider(k, content_bytes) -> bool for the k-th test of the strategy (0-based)"""
     import signal
 
     import lithium.strategies as S
 
+    key = (name, bool(cfg.get("move")))
+    if key in HUNG:
+        r = Run()
+        r.best = fields(tc)
+        r.error = "hang: (not run again: this strategy already failed to finish earlier in this check)"
+        return r
+
     old_handler = signal.signal(signal.SIGALRM, _alarm)
     signal.setitimer(signal.ITIMER_REAL, watchdog)
     try:
-        return _run_real(S, name, cfg, tc, decider, clock_times, max_tests, watchdog)
+        r = _run_real(S, name, cfg, tc, decider, clock_times, max_tests, watchdog)
+        if r.error and r.error.startswith("hang") and not cfg.get("move"):
+            HUNG.add(key)
+        return r
     finally:
         signal.setitimer(signal.ITIMER_REAL, 0)
         signal.signal(signal.SIGALRM, old_handler)
